@@ -1,0 +1,13 @@
+//go:build verif
+
+package ysgo
+
+// VerifState exposes the runner's control state to the verification harness
+// (coverage evidence only: which states snapshots, restores and extra Next calls
+// were applied in). It is compiled only with the "verif" build tag.
+func (dr *DialogueRunner) VerifState() (continuationDepth int, pendingStatements int, waitingForChoice bool, commandPending bool) {
+	for _, queue := range dr.statementsToRun {
+		pendingStatements += len(queue.statements) - queue.pointer
+	}
+	return dr.statementsToRun.Size(), pendingStatements, dr.isWaitingForChoice(), dr.commandErrChan != nil
+}
